@@ -856,8 +856,6 @@ def xdecl_shape(shape, leafdecl):
 
 
 def xdecl_class(case, nested=False):
-    if case.get("undef"):
-        return None      # (the None / Undefined distinction is not in the Lean model)
     fields = []
     for f in case["fields"]:
         leafdecl = xdecl_leaf(f["leaf"])
@@ -872,6 +870,9 @@ def xdecl_class(case, nested=False):
     cname = "XSub" if str(case.get("compact", "")).startswith("inherited") else "X"
     cls = {"k": "struct", "name": cname, "required": [f["name"] for f in case["fields"] if f["wrap"] not in ("optional", "optional-union")],
            "addl": not case.get("compact"), "ignoreNone": bool(case.get("ignore_none")), "accepts": [cname], "fields": fields}
+    if case.get("undef"):
+        cls["undef"] = True       # _enable_undefined_value: an explicit None is a state of its own (XDecl.structU)
+        cls["ignoreNone"] = False   # ... also when the class says _ignore_none (probed: the explicit None is kept)
     if nested:
         cls = {"k": "struct", "name": "Outer", "required": ["inner"], "addl": True, "accepts": ["Outer"],
                "fields": [["inner", cls], ["tag", {"k": "base", "f": {"k": "string"}}]]}
@@ -900,7 +901,9 @@ def xwire(v):
     if isinstance(v, dict):
         return {"m": [[xwire(k), xwire(x)] for k, x in dict.items(v)]}
     if isinstance(v, Structure):
-        return {"o": [type(v).__name__, [[k, xwire(x)] for k, x in v.__dict__.items() if k not in dump.INTERNAL]]}
+        # (an _enable_undefined_value class keeps the names of attributes explicitly set to None in _none_fields)
+        return {"o": [type(v).__name__, [[k, xwire(x)] for k, x in v.__dict__.items() if k not in dump.INTERNAL]
+                      + [[k, None] for k in sorted(getattr(v, "_none_fields", None) or []) if k not in v.__dict__]]}
     return dump.dump_value(v)
 
 
